@@ -69,4 +69,4 @@ def check_accepts(acc, envs, nproc=16, backend="numpy"):
     cases = [{"tmin": r["toks"], "tfull": r["toks"], "bool": r["bool"], "vals": r["vals"], "lvl": 0} for r in acc]
     # the corpus model declares a parameter `a` and states x, y: the alphabets only use x and y
     envs2 = [dict(e, a={"k": "q", "n": 1, "d": 1, "ex": True}) for e in envs]
-    return exprcorpus.replay(cases, envs2, backend, nproc, styles=("tmin",))
+    return exprcorpus.replay(cases, envs2, backend, nproc, styles=("tmin", "tmin-compact"))
